@@ -604,10 +604,11 @@ type engPlan struct {
 	Coarse          bool   `json:"coarse"`            // only switch at visible steps
 	CrashAfterPhase int    `json:"crash_after_phase"` // stop and re-initialise once this phase is over (-1 / absent+flag = never)
 	HasCrashAfter   bool   `json:"has_crash_after"`
-	FailRead        int    `json:"fail_read"` // > 0: the k-th keyed store lookup answers a transient error
-	Cancel          int    `json:"cancel"`    // > 0: from scheduling step k on, the context of one request waiting for persistence is cancelled
-	First           bool   `json:"first"`     // beyond the explicit prefix take the first enabled actor (used by the exhaustive search)
-	DFS             int    `json:"dfs"`       // > 0: enumerate every schedule (depth-first over the choices), at most this many
+	FailRead        int    `json:"fail_read"`  // > 0: the k-th keyed store lookup answers a transient error
+	SlowStore       bool   `json:"slow_store"` // the store answers InsertLogs only when nothing else can run (longest persistence latency)
+	Cancel          int    `json:"cancel"`     // > 0: from scheduling step k on, the context of one request waiting for persistence is cancelled
+	First           bool   `json:"first"`      // beyond the explicit prefix take the first enabled actor (used by the exhaustive search)
+	DFS             int    `json:"dfs"`        // > 0: enumerate every schedule (depth-first over the choices), at most this many
 }
 
 var engVisible = map[string]bool{"start": true, "ik-lookup": true, "ref-lookup": true, "lock": true, "read-balances": true, "alloc-txid": true,
@@ -887,7 +888,8 @@ func runEngineSchedule(reqs []engReq, funding [][]string, ameta [][]string, plan
 				}
 			}
 			sort.Ints(enabled)
-			if _, ok := s.parked[actorP]; ok {
+			// a slow store (plan.SlowStore): the persistence gate is released only when no request can run
+			if _, ok := s.parked[actorP]; ok && !(plan.SlowStore && len(enabled) > 0) {
 				enabled = append(enabled, actorP)
 			}
 			if len(enabled) == 0 {
@@ -1104,6 +1106,11 @@ func genEngine(r *rng, n int, tier string, emit func(J)) {
 				pl["fail_read"] = 1 + g.n(4)
 			} else if crashes && g.p(25) {
 				pl["cancel"] = 1 + g.n(10*nReq)
+				if g.p(50) {
+					pl["slow_store"] = true
+				}
+			} else if g.p(10) {
+				pl["slow_store"] = true
 			}
 			plans = append(plans, pl)
 		}
